@@ -67,6 +67,7 @@ Record constraint := { c_op : string ; c_args : list dyn }.
    `any`; the two hints holding a DisjunctionType are kept on the struct constructor) *)
 Record attrs := { nullable : bool ; dflt : dyn ; hints : list (string * dyn) }.
 Definition attrs0 : attrs := {| nullable := false ; dflt := DNil ; hints := [] |}.
+Definition A0 := attrs0.
 
 Record field_ (T : Type) := mkField
   { f_name : string ; f_comments : list string ; f_type : T ; f_required : bool }.
